@@ -108,7 +108,7 @@ CHECKS = {
          'BareIsOne, NeverUnmatched, StarIsAll, ExactIsExact, ErrorRule on all sequences of the bound. Every database state TLC '
          'explored is rebuilt through wn.add in that order and each specifier x language is asked of wn.lexicons(), '
          'wn.Wordnet() and wn.remove(); TLC compares the sets and the error behaviour.',
-    note='Trusted: TLC string operators, SQLite GLOB for the generated patterns (star, and the undocumented ? and [...] without ranges).',
+    note='Trusted: TLC string operators, SQLite GLOB for the generated patterns (star, and the undocumented ? and [...] without ranges). One lexicon of the universe has a language tag with an upper-case subtag (fr-CA), asked as given.',
     design='DESIGN.md section 4 C08'),
  'C09': dict(
     engine='words',
@@ -120,7 +120,7 @@ CHECKS = {
          'the bound. Random lexicons with case/diacritic/compatibility variants are searched through the real Wordnet under all '
          'combinations of normalizer, search_all_forms, lemmatizer (none, custom, Morphy uninitialised/initialised) and part of '
          'speech; TLC compares result sets and rejects duplicates.',
-    note='Trusted: TLC, the harness normalisation table (unicodedata, independent of wn), the logged lemmatizer candidates.',
+    note='Trusted: TLC, the harness normalisation table (unicodedata, independent of wn), the logged lemmatizer candidates. Every query is also asked of one long-lived Wordnet whose lemmatizer attribute is assigned before the query.',
     design='DESIGN.md section 4 C09'),
  'C17': dict(
     engine='words',
@@ -129,7 +129,7 @@ CHECKS = {
     text='MorphyInit / MorphyUninit give the exact result map; TLC proves SoundInit, CompleteInit, UninitHasOriginal, '
          'NoFullSuppletion, SatellitesShareRules on the bounded model; ~30k recorded calls on random lexicons whose lemmas and '
          'irregular forms make every rule fire and collide are compared map-for-map by TLC.',
-    note='Trusted: TLC string operators. Forms carry no script.',
+    note='Trusted: TLC string operators. Forms carry no script. The Wordnet rows are also asked of one long-lived Wordnet whose lemmatizer is reassigned.',
     design='DESIGN.md section 4 C17'),
  'C18': dict(
     engine='validate',
@@ -141,7 +141,7 @@ CHECKS = {
          'defects, pairs and random combinations under several select arguments: validate() must return, contain exactly the '
          'selected codes, list exactly the model items (a stated range for W203/W404), relation contexts must name a real '
          'offending relation, and E204/E401 must make add() fail.',
-    note='Trusted: TLC, the flattening of the loaded lexicon into relational form, relations.json (snapshot of wn.constants).',
+    note='Trusted: TLC, the flattening of the loaded lexicon into relational form, relations.json (snapshot of wn.constants). Defect battery includes entries sharing an id with senses in the same synset.',
     design='DESIGN.md section 4 C18'),
  'C04': dict(
     engine='query',
@@ -154,7 +154,7 @@ CHECKS = {
          'Random worlds (two versions of one id, extension, other-language lexicon sharing ILIs) are queried through every public method; TLC '
          'checks membership in the selection, exact forms/tags/examples/definitions/counts visibility, and a functional monitor compares each '
          'configuration before/after removing and re-adding every outside lexicon.',
-    note='Trusted: TLC, materialiser, observer naming entities by (lexicon specifier, id). Two listed known findings (forms / tags of unselected extensions).',
+    note='Trusted: TLC, materialiser, observer naming entities by (lexicon specifier, id). Two listed known findings (forms / tags of unselected extensions). roots() / leaves() per part of speech (a/s merged) must stay inside the selection too.',
     design='DESIGN.md section 4 C04'),
  'C10': dict(
     engine='query',
@@ -166,7 +166,7 @@ CHECKS = {
          'base entries/synsets, repeated/proposed/absent ILIs, every entity is navigated under default, single, multiple and language selections; '
          'TLC checks the declared targets, rank order, images in order, inverse membership, translation sets, and ==/hash agreement of objects '
          'reached by different routes.',
-    note='Trusted: TLC, materialiser. Order among senses of equal rank is unspecified and accepted in any order.',
+    note='Trusted: TLC, materialiser. Order among senses of equal rank is unspecified and accepted in any order. Word translation is compared as a list (image of sense translation, duplicates kept).',
     design='DESIGN.md section 4 C10'),
  'C11': dict(
     engine='query',
@@ -242,7 +242,7 @@ CHECKS = {
          'load() raises exactly for rejected documents, neutral mutations load identically, add() raises and leaves the raw database '
          'unchanged, is_lmf() agrees with the header rule, and scan_lexicons() equals the lexicons of the full load in order.',
     note='Trusted: TLC, the mutation generator (line-based on the materialiser output), expat for well-formedness in general. '
-         'One listed known finding (add() returns at "nothing to do" without parsing a malformed file whose scanned lexicons are all skipped).',
+         'One listed known finding (add() returns at "nothing to do" without parsing a malformed file whose scanned lexicons are all skipped). Header alphabet includes a byte order mark, a leading blank (refused) and blanks / CR after the header lines (neutral).',
     design='DESIGN.md section 4 C20'),
  'C16': dict(
     engine='functional',
@@ -256,7 +256,7 @@ CHECKS = {
          'battery (queries, navigation, relations, taxonomy, similarity, IC, searches, Morphy, validate, dump, export, describe) runs twice in '
          'separate interpreters with different hash seeds; ~10^5 trace lines are consumed by TLC, which reports each call whose canonical '
          'rendering (order of lists and mappings, float repr, file bytes) differs.',
-    note='Trusted: TLC, the canonical rendering and SHA-256 digests computed by the harness.',
+    note='Trusted: TLC, the canonical rendering and SHA-256 digests computed by the harness. Other Wordnet configurations of the same entities are asked before or after the main battery depending on the process and the pass.',
     design='DESIGN.md section 4 C16'),
 }
 
